@@ -96,6 +96,22 @@ def num_cases(rng, tier):
             cases.append(binop_case(op, a, b, "directed-boundary"))
         for (a, b) in (rnd if tier == "thorough" else rng.sample(rnd, 50)):
             cases.append(binop_case(op, a, b, "random"))
+    # limb grids for the DIVIDING operators: every nominator whose four limbs come from {0, 1, 2^64-1} against every divisor of
+    # exactly three limbs from the same set (thorough: divisors of two and four limbs too).  Hand-written multi-limb division
+    # goes wrong on its rare correction steps, which random operands reach with probability 2^-63 and structured limbs reach
+    # at once (C08-agent18: Knuth D with a lost carry in the add-back step)
+    import itertools
+    lv = (0, 1, W64 - 1)
+    noms_ = [a | (b << 64) | (c << 128) | (d << 192) for a, b, c, d in itertools.product(lv, repeat=4)]
+    divs_ = [a | (b << 64) | (c << 128) for a, b, c in itertools.product(lv, lv, (1, W64 - 1))]
+    if tier == "thorough":
+        divs_ += [a | (b << 64) for a, b in itertools.product(lv, (1, W64 - 1))]
+        divs_ += [a | (b << 64) | (c << 128) | (d << 192) for a, b, c, d in itertools.product(lv, lv, lv, (1, W64 - 1))]
+    for n_ in noms_:
+        for d_ in divs_:
+            if n_ > 0:
+                for op in ("d_from_ratio", "d_div", "u_divdec"):
+                    cases.append(binop_case(op, n_, d_, "directed-grid"))
     # ternary multiply_ratio
     tri = []
     for _ in range(120 if tier == "quick" else 4000):
